@@ -62,7 +62,10 @@ func c11Profiles(tier string) []Profile {
 		w.CheckRefLive()
 		w.CloseAllAndCheckRefs(true)
 	}
-	return []Profile{pool.Profile(fmt.Sprintf("the same product (depth %d) with reference-counting callbacks forming a recycling pool on the source (an item whose count reaches zero is scrubbed): the copy must still be complete, and after closing the source every reference CopyTo took must have been released", d)), p.Profile(fmt.Sprintf("every source state reached by a history of length <= %d over SetCollection(x), SetCollection(y, reverse comparator), Set/Delete/Evict, Flush, Reopen (empty stores and empty collections included) x source in {writable store, snapshot of it} x flushEvery in {-1, 0, 1, 2, 3, n, n+1}; oracles: the returned store equals the model of the source through the whole read API; for flushEvery > 0 a copy of the destination file re-opens (with the collection's comparator) to the same state, is accepted by the independent decoder, and holds exactly one item record per key over the trees of all its root records; the source, its file (byte compare and write monitor) and the snapshot are unchanged", d))}
+	faulted := Profile{Name: "faulted-copy", Exec: OnlySigs(c07Exec(1, 1, false), "CopyTo", "copyto:"),
+		Budget: map[int]int{1: 0, 2: 0, 3: 1}, ShardLevel: 3,
+		Rule: "CopyTo with one failing file call at every index of the source file and, separately, of the destination file (torn writes included), from 5 initial stores: an error must be reported (a copy that silently lacks items is not a copy) and the source stays as it was"}
+	return []Profile{faulted, pool.Profile(fmt.Sprintf("the same product (depth %d) with reference-counting callbacks forming a recycling pool on the source (an item whose count reaches zero is scrubbed): the copy must still be complete, and after closing the source every reference CopyTo took must have been released", d)), p.Profile(fmt.Sprintf("every source state reached by a history of length <= %d over SetCollection(x), SetCollection(y, reverse comparator), Set/Delete/Evict, Flush, Reopen (empty stores and empty collections included) x source in {writable store, snapshot of it} x flushEvery in {-1, 0, 1, 2, 3, n, n+1}; oracles: the returned store equals the model of the source through the whole read API; for flushEvery > 0 a copy of the destination file re-opens (with the collection's comparator) to the same state, is accepted by the independent decoder, and holds exactly one item record per key over the trees of all its root records; the source, its file (byte compare and write monitor) and the snapshot are unchanged", d))}
 }
 
 func init() {
